@@ -121,7 +121,7 @@ class GradientBoostingQuantileRegressor(RegressorMixin, BaseEstimator):
 
         elif return_std:
             std_quantiles = [0.16, 0.5, 0.84]
-            is_present_mask = np.in1d(std_quantiles, self.quantiles)
+            is_present_mask = np.isin(std_quantiles, self.quantiles)
             if not np.all(is_present_mask):
                 raise ValueError(
                     "return_std works only if the quantiles during "
